@@ -129,6 +129,61 @@ def noOverwriteRun : State → List Op → Bool
   | _, [] => true
   | s, op :: t => noOverwrite s op && noOverwriteRun (apply s op) t
 
+/-- What an accepted message adds to the surplus of the `(n, x)` lookup counter over the number of
+records: 1 when it increments the counter without a new record — an `add` onto a stored key
+(`SetAttribute` does not look the key up), an `update` onto ANOTHER stored value (the original
+record and one counter unit go, the new record replaces a stored one, the counter goes up again). -/
+def overwriteOf (s : State) (op : Op) (n x : String) : Nat :=
+  match op with
+  | .add _ a => if (a.name, a.addr) = (n, x) ∧ hasKey s a.key = true then 1 else 0
+  | .update _ addr name ov _ nv _ =>
+    if (name, addr) = (n, x) ∧ (hasKey s (addr, name, nv) = true ∧ nv ≠ ov) then 1 else 0
+  | _ => 0
+
+/-- Number of accepted overwriting writes under `(n, x)` in the history `ops` from `s`. -/
+def overwrites : State → List Op → String → String → Nat
+  | _, [], _, _ => 0
+  | s, op :: rest, n, x =>
+    (match step s op with
+      | .ok _ => overwriteOf s op n x
+      | .error _ => 0) + overwrites (apply s op) rest n x
+
+/-- Every block of the history began with at most `MaxExpiredAttributionCount` expired attributes
+(the sweep never hit its cap). -/
+def underCapRun : State → List Op → Bool
+  | _, [] => true
+  | s, op :: rest =>
+    (match op with
+      | .beginBlock t => decide (expiredCount s t ≤ maxExpiredAttributionCount)
+      | _ => true) && underCapRun (apply s op) rest
+
+/-- No stored attribute has an expiration before the block time of the state. -/
+def noneExpired (s : State) : Bool := expiredGone s.now s
+
+/-- The lookup lists only holders: no counter in the store exceeds the number of records under its
+(name, account) pair (so a listed account holds at least one attribute under the name). -/
+def lookupOnlyHolders (s : State) : Bool :=
+  s.cnt.all (fun p => decide (getCnt s p.1.1 p.1.2 ≤ count s p.1.1 p.1.2))
+
+/-- Every stored expiration has its queue entry. -/
+def queueComplete (s : State) : Bool :=
+  s.recs.all (fun r => match r.exp with | some e => s.queue.contains (e, r.key) | none => true)
+
+/-- The checker of a genesis round trip (op line `regen <t>`: `ExportGenesis`, then `InitGenesis`
+into an emptied attribute store at block time `t`), judged on the states the implementation dumped
+before (`s`) and after (`s'`): the conclusions of `PvProofs.C18Attr`.  A refused import of the
+chain's own export is a failure as soon as every exported record passes `ValidateBasic`. -/
+def verdictGenesis (s : State) (t : Nat) (accepted : Bool) (s' : State) : String :=
+  if !accepted then
+    (if genesisValid (exportGenesis s) then "fail:genesis:own_export_refused" else "ok")
+  else if !s.recs.all (fun r => isExpired t r || s'.recs.contains r) then "fail:genesis:record_lost"
+  else if !s'.recs.all (fun r => s.recs.contains r && !isExpired t r) then "fail:genesis:record_not_exported_or_expired"
+  else if !lookupComplete s' then "fail:lookup_omits_holder"
+  else if !lookupOnlyHolders s' then "fail:genesis:lookup_lists_non_holder"
+  else if !noStale s' then "fail:genesis:stale_queue_entry"
+  else if !queueComplete s' then "fail:genesis:expiration_not_queued"
+  else "ok"
+
 /-- The checker: the conclusions of the theorems evaluated on an observed transition.
 `accepted` = the implementation returned no error. Clause names are what
 `known_findings.json` matches on.  `cap` is the per-block cap of the sweep that produced the
